@@ -431,6 +431,13 @@ func (c19) Run(t *tape.Tape, cfg sim.Config) (res sim.Result) {
 				nv = mc.WithWalltime(func() (int64, int32) { return int64(sec), 0 }, sys.ClockResolution(1))
 				rec.wall, rec.sysWall = sec, false
 			case 6:
+				if t.Chance(1, 3) {
+					// explicitly "the default": every instantiation then starts the same deterministic sequence
+					how = "WithRandSource(nil)"
+					nv = mc.WithRandSource(nil)
+					rec.rand = -1
+					break
+				}
 				b := byte(0x40 + step)
 				how = fmt.Sprintf("WithRandSource(%#x)", b)
 				nv = mc.WithRandSource(constReader{b})
@@ -670,7 +677,7 @@ func observeMC(res *sim.Result, rt any, n *node, idx int, after string, stdouts 
 		b := g.Read(uint32(w.StartMarker+j-1), 1)[0]
 		want := byte(0)
 		for _, s := range rec.starts {
-			if s == fmt.Sprintf("s%d", j) {
+			if s == fmt.Sprintf("s%d", j) && !(namedBinary && j == 1) { // (the named binary does not export s1)
 				want = 1
 			}
 		}
@@ -788,9 +795,23 @@ func observeMC(res *sim.Result, rt any, n *node, idx int, after string, stdouts 
 				return fail("random bytes %#x, model has %#x", b, rec.rand)
 			}
 		}
+	} else {
+		// the default source: a fixed sequence that starts anew in every instance
+		if e, err := g.Call(ctx, "random_get", 0x100, 5); err != nil || e != 0 {
+			return fail("random_get failed")
+		}
+		got := fmt.Sprintf("%x", g.Read(0x100, 5))
+		if defaultRand == "" {
+			defaultRand = got // the first default-source instance of the process calibrates
+		} else if got != defaultRand {
+			return fail("the default random source gave %s, every other default-configured instance got %s: state carried between instantiations", got, defaultRand)
+		}
 	}
 	return true
 }
+
+// defaultRand: the first five bytes of the default random source, as read by the first instance that had it.
+var defaultRand string
 
 // duringInstantiate, when set, runs on the embedder's side in the middle of InstantiateModule (from the
 // memory allocator the context carries): what another user of the same configuration values would see
